@@ -219,6 +219,8 @@ def run(ctx):
     common.api_rule(ctx, ['sed.helpers', 'sed.sed', 'sed.cube', 'convolved_fluxes.convolved_fluxes', 'utils.io'], min_chains=120)
     check_axis_pair(ctx)
     check_get_sed(ctx)
+    from . import c15
+    c15.check_conversions(ctx)       # reading in a requested flux unit goes through convert_flux: reading in the unit the file is stored in gives the stored values
     if not all(decided.values()):
         sus = roundtrip.SuspectCtx(ctx, 'the round trip was not decided by interpretation and the syntactic rule, which knows one spelling only, reports')
         try:
